@@ -1,6 +1,7 @@
 #![allow(dead_code)]
 mod check;
 mod data;
+mod e2;
 mod families;
 mod host;
 mod mon_local;
@@ -67,6 +68,8 @@ fn replay_file(path: &str) -> i32 {
     let v: serde_json::Value = serde_json::from_str(&text).expect("replay file is JSON");
     let engine = v["engine"].as_str().unwrap_or("");
     if engine != "netmc" {
+        let mut v = v;
+        v["__path"] = serde_json::json!(path);
         return props::replay_other(&v);
     }
     let script: script::Script = serde_json::from_value(v["script"].clone()).expect("script");
